@@ -21,7 +21,7 @@ func (c02) ID() string { return "C02" }
 func (c02) Meta(tier string) engine.Meta {
 	return engine.Meta{
 		Level: "model_checking",
-		Rule: "type-directed enumeration over the partial-operation alphabet: list subscripts and get() with indices {-1,-0.5,0,0.5,1,2,len,2^53,1e300,NaN,±Inf,0/0,1/0}, map subscripts / get / isset with present and absent keys of str and num key types, % with divisors {0,0.5,-0.5,-1,3,2^63}, match with valid / invalid patterns, get(optional), empty containers, && / || / ?: guards around undefined operations (also 11 hand-built three-level guard idioms); all programs up to the depth bound; plus size families (lists / nested sums / nested conditionals with 43…3000 live stack slots or constants, 256…70000 constants). Oracle: the reference evaluator predicts value or failure kind; the real outcome must be a value exactly when defined and a failure only of the documented kind; get() never fails. non-trivial = the program contains a partial operation",
+		Rule: "type-directed enumeration over the partial-operation alphabet: list subscripts and get() with indices {-1,-0.5,0,0.5,1,2,len,2^53,1e300,NaN,±Inf,0/0,1/0}, map subscripts / get / isset with present and absent keys of str and num key types, % with divisors {0,0.5,-0.5,-1,3,2^63}, match with valid / invalid patterns, get(optional), empty containers, method-syntax calls with sugared arguments, && / || / ?: guards around undefined operations (also 11 hand-built three-level guard idioms); all programs up to the depth bound; plus size families (lists / nested sums / nested conditionals with 43…3000 live stack slots or constants, 256…70000 constants). Oracle: the reference evaluator predicts value or failure kind; the real outcome must be a value exactly when defined and a failure only of the documented kind; get() never fails. non-trivial = the program contains a partial operation",
 		Bound: "quick: depth 1 in full + depth 2 with one nested operand over the 6 core atoms; thorough: depth 1 in full, depth 2 with one nested operand over all boundary atoms, ALL of depth 2 over the 6 core atoms; size families are linear sweeps",
 		Assumptions: []string{"index / modulo truncation toward zero is specified only inside the int64 range; beyond it (and for NaN / ±Inf indices) the oracle demands only 'a documented failure or a value', never an internal fault"},
 	}
